@@ -20,72 +20,6 @@ fn f10_semi_constrained_read_overflows() {
     }));
 }
 
-#[test]
-fn f10_constrained_read_overflows_for_wide_ranges() {
-    let bytes = vec![0xFFu8; 8];
-    assert!(panics(move || {
-        let mut pos = 0usize;
-        let mut r = (&bytes[..], &mut pos);
-        let _ = r.read_constrained_whole_number(1 << 61, 3 << 61);
-    }));
-}
-
-#[test]
-fn f10c_full_i64_range_overflows() {
-    assert!(panics(|| {
-        let mut w = BitBuffer::default();
-        let _ = w.write_constrained_whole_number(i64::MIN, i64::MAX, 0);
-    }));
-    let bytes = vec![0u8; 8];
-    assert!(panics(move || {
-        let mut pos = 0usize;
-        let mut r = (&bytes[..], &mut pos);
-        let _ = r.read_constrained_whole_number(i64::MIN, i64::MAX);
-    }));
-}
-
-#[test]
-fn f10a_bitstring_20000_bits_does_not_round_trip() {
-    let src = vec![0x5Au8; 2500];
-    let mut w = BitBuffer::default();
-    w.write_bitstring(None, None, false, &src, 0, 20000).unwrap();
-    let n = w.bit_len();
-    let bytes: Vec<u8> = w.into();
-    let r = std::panic::catch_unwind(move || {
-        let mut pos = 0usize;
-        let mut r = (&bytes[..n.div_ceil(8)], &mut pos);
-        r.read_bitstring(None, None, false).map(|(b, l)| (b.len(), l)).ok()
-    });
-    // either a panic or not the original 20000 bits
-    assert!(r.is_err() || r.unwrap() != Some((2500, 20000)));
-}
-
-#[test]
-fn f10_write_nnbi_value_below_lower_panics() {
-    assert!(panics(|| {
-        let mut w = BitBuffer::default();
-        let _ = w.write_non_negative_binary_integer(Some(10), Some(20), 5);
-    }));
-}
-
-#[test]
-fn f10_enumeration_index_zero_variants_panics() {
-    assert!(panics(|| {
-        let mut w = BitBuffer::default();
-        let _ = w.write_enumeration_index(0, false, 0);
-    }) || {
-        let mut w = BitBuffer::default();
-        w.write_enumeration_index(0, false, 0).is_err()
-    });
-}
-
-#[test]
-fn f10_2s_complement_bit_len_above_64_panics() {
-    assert!(panics(|| {
-        let mut w = BitBuffer::default();
-        let _ = w.write_2s_compliment_binary_integer(65, 1);
-    }));
-}
 
 mod big {
     use asn1rs::prelude::*;
